@@ -199,6 +199,13 @@ def define_entity(draw, M, kind, n, sols_now):
                 c["rate"] = "r_unguarded"
         seen = set()
         d["comps"] = [c for c in d["comps"] if not (c["rate"] in seen or seen.add(c["rate"]))]
+        phases = set(CG.DB[DB]["minerals"])
+        for c in d["comps"]:
+            # known finding (GetComponent between calls): a -formula list of >= 2 names that holds a phase name makes
+            # Phreeqc::calc_dummy_kinetic_reaction_tally store the phase name as an element; excluded by construction
+            if len(c["formula"]) >= 2 and any(nm in phases for nm, _ in c["formula"]):
+                c["formula"] = [x for x in c["formula"] if x[0] not in phases] or c["formula"][:1]
+                M.feats.add("excluded_kinetics_formula_list_with_phase_name")
         d["cvode"] = False               # CVODE together with a surface / gas phase can take minutes per step
         if "times" in d:                 # keep the integration short: at most 1000 s per step
             d["times"] = [float("%.3g" % min(t, 1000.0 * (i + 1))) for i, t in enumerate(d["times"])]
